@@ -193,7 +193,7 @@ class DistTranslator:
                 acc.append(v)
         if k == "CallExpr":
             callee = strip(kids(n)[0]).get("referencedDecl", {}).get("name")
-            if callee == "cmb_random_sfc64" or (callee in self.fns and self.fns[callee].draws):
+            if callee == "cmb_random_sfc64" or (callee in self.fns and self.fns[callee].draws and callee not in EXTERNAL):
                 if "k_" not in acc:
                     acc.append("k_")
         if k == "UnaryExprOrTypeTraitExpr":
